@@ -20,9 +20,17 @@ build_harness() {
     fi
 }
 
+# C07 also runs its child-process stages against kiki built in cargo's dev profile (unoptimised, debug assertions,
+# overflow checks: what a build script gets by default). A failure to build it only skips those stages.
+build_debug_worker() {
+    (cd "$ROOT/harness" && cargo build --offline >"$ROOT/.work/build-debug.log" 2>&1) || \
+        { echo "dev-profile worker does not build (see .work/build-debug.log); C07 skips its debug-build stages and says so in its evidence" >&2; rm -f "$ROOT/harness/target/debug/verif"; }
+}
+
 case "${1:-}" in
 setup)
     build_harness || exit 2
+    build_debug_worker
     # E3 (thorough tiers only): cargo-fuzz targets; no sanitizer (kiki has no unsafe code, ASan costs ~10x)
     if [ -d "$ROOT/harness/fuzz" ]; then
         if (cd "$ROOT/harness" && cargo +nightly fuzz build -O -s none >"$ROOT/.work/fuzz-build.log" 2>&1); then
@@ -36,12 +44,14 @@ setup)
 replay)
     [ $# -ge 3 ] || { echo "usage: $0 replay <id> <file>" >&2; exit 2; }
     build_harness || exit 2
+    [ "$2" = "C07" ] && build_debug_worker
     exec "$ROOT/harness/target/release/verif" replay "$2" "$3"
     ;;
 C[0-9][0-9])
     id="$1"
     tier="${2:-${VERIF_TIER:-quick}}"
     build_harness || { echo "INCONCLUSIVE property=$id harness does not build against the current /repo tree"; exit 2; }
+    [ "$id" = "C07" ] && build_debug_worker
     if [ "$tier" = "thorough" ] && [ -d "$ROOT/harness/fuzz" ]; then
         # the fuzz targets link kiki too: rebuild them from the current tree (cargo fingerprints make this a no-op when nothing changed)
         (cd "$ROOT/harness" && cargo +nightly fuzz build -O -s none >"$ROOT/.work/fuzz-build.log" 2>&1) || \
